@@ -163,6 +163,14 @@ OBJS = {
     ),
     "kennel": (lambda: mx.Kennel(star=mx.Dog(name="rex", bark=3), animal=[mx.Dog(name="fido")], thing=mx.Cat(name="any")), "m_xsi.Kennel"),
     "zoo_dogs": (lambda: mx.Zoo(star=mx.Dog(name="rex", bark=3), animal=[mx.Dog(name="fido")], thing=mx.Cat(name="any")), "m_xsi.Zoo"),
+    "pets": (lambda: mx.Pets(items=[mx.Dog(name="d", bark=1), mx.Cat(name="c", lives=2), mx.Animal(name="a")]), "m_xsi.Pets"),
+    "pets_cat": (lambda: mx.Pets(items=[mx.Cat(name="only")]), "m_xsi.Pets"),
+    "zoo_money": (lambda: mx.Zoo(thing=mx.Money("1.50")), "m_xsi.Zoo"),
+    "till": (lambda: mx.Till(amount=mx.Money("2.25")), "m_xsi.Till"),
+    "zoo_any_true": (lambda: mx.Zoo(thing=True, things=[True]), "m_xsi.Zoo"),
+    "zoo_any_float1": (lambda: mx.Zoo(thing=1.0, things=[1.0, 0.0]), "m_xsi.Zoo"),
+    "zoo_any_dec1": (lambda: mx.Zoo(thing=Decimal("1"), things=[Decimal("0")]), "m_xsi.Zoo"),
+    "zoo_any_false": (lambda: mx.Zoo(thing=False, things=[0, 1]), "m_xsi.Zoo"),
     "zoo_prims": (lambda: mx.Zoo(thing=Decimal("1.25"), things=[XmlDate(2001, 1, 1), QName("urn:x", "q")]), "m_xsi.Zoo"),
     "derived_dog": (lambda: DerivedElement(qname="{urn:x}animal", value=mx.Dog(name="der", bark=1), type="{urn:x}dog"), "m_xsi.Animal"),
     "anybox": (
@@ -309,6 +317,8 @@ _x("hw_zoo", "m_xsi.Zoo", """
 _x("hw_zoo_prefixed_xsi", "m_xsi.Zoo", """
 <z:zoo xmlns:z="urn:x" xmlns:i="http://www.w3.org/2001/XMLSchema-instance"><z:star i:type="z:cat" lives="1"><z:name>c</z:name></z:star></z:zoo>""")
 _x("hw_kennel", "m_xsi.Kennel", """<kennel xmlns="urn:x"><star><name>rex</name><bark>2</bark></star><animal><name>a</name></animal><thing lives="2"><name>c</name></thing></kennel>""")
+_x("hw_pets", "m_xsi.Pets", """<pets xmlns="urn:x"><dog><name>d</name></dog><animal><name>a</name></animal><cat lives="1"><name>c</name></cat></pets>""")
+_x("hw_till", "m_xsi.Till", """<till xmlns="urn:x"><amount>3.75</amount></till>""")
 _x("hw_zoo_noclass", None, """<zoo xmlns="urn:x"><animal><name>n</name></animal></zoo>""")
 _x("hw_dog_root_noclass", None, """<dog xmlns="urn:x"><name>d</name><bark>1</bark></dog>""")
 _x("hw_animal_root_xsi", "m_xsi.Animal", """
